@@ -103,6 +103,13 @@ func TxSizeForFee(tx Transaction) (int, error) {
 				return fullSize, nil
 			}
 		}
+		// The header-only decoder does not handle an indefinite-length
+		// envelope (0x9f ... 0xff): count its elements instead.
+		var elems []cbor.RawMessage
+		if _, err := cbor.Decode(cborData, &elems); err == nil &&
+			len(elems) == 4 {
+			return fullSize - 1, nil
+		}
 		return fullSize, nil
 	}
 	return fullSize, nil
